@@ -496,7 +496,10 @@ static void one_call(Builder& B, bool allow_corner) {
         double r = (5 + (double)g.below(5)) * W, ang = ((double)g.range(20, 100)) * M_PI / 180 * (g.coin() ? 1 : -1);
         double a0 = h + (ang < 0 ? 0.5 * M_PI : -0.5 * M_PI);
         double ry = g.chance(30) ? r * (0.9 + 0.2 * (double)g.below(101) / 100.0) : r;
-        rp.arc(r, ry, a0, a0 + ang, 0, wp, op);
+        // a circle is the same curve under any `rotation` of its axes (angles are given in the path's frame): the section, its end
+        // point and what follows must not depend on it
+        double rot = (ry == r && g.chance(50)) ? ((double)g.range(-300, 300)) / 100.0 : 0;
+        rp.arc(r, ry, a0, a0 + ang, rot, wp, op);
         if (ry == r) {
             want_end = Vec2{c.x - r * cos(a0) + r * cos(a0 + ang), c.y - r * sin(a0) + r * sin(a0 + ang)};
             have_end = true;
